@@ -157,6 +157,8 @@ class LibMixin:
             return self.truthy(self.opaque("isinstance_" + name, [v]))
         if k in ("cls", "func"):
             return smt.FALSE
+        if k in ("regex", "match", "optmatch") and name in ("str", "int", "list", "tuple", "bool"):
+            return smt.FALSE
         raise Unsupported("isinstance of %r" % (v.ty,))
 
     def bi_issubclass(self, pos, kw, st, exc, e):
